@@ -223,9 +223,9 @@ class AnalysisInterp(Interp):
         if isinstance(tgt, Obj) and tgt.kind == "func":
             fi: FuncInfo = tgt.data
             mname = fi.module.name
-            if mname == "hexital.utils.indexing":
+            if mname.startswith("hexital.utils") and fi.name in ("validate_index", "absindex", "valid_index"):
                 return self.index_helper(st, node, fi)
-            if mname == "hexital.utils.candles" and fi.name in ("reading_by_index", "reading_by_candle"):
+            if mname.startswith("hexital.utils") and fi.name in ("reading_by_index", "reading_by_candle"):
                 b = self.bind_args(fi.node, node, st)
                 name = b.get("name")
                 nm = name.s if isinstance(name, Str) else f"<?{name!r}>"
@@ -240,7 +240,7 @@ class AnalysisInterp(Interp):
                 if isinstance(c, Obj) and c.kind == "candle":
                     return Num(mk_rd(nm, c.data))
                 return Opaque("reading_by_candle(non-candle)")
-            if mname.startswith("hexital.analysis") or mname == "hexital.utils.candles":
+            if mname.startswith("hexital.analysis") or mname.startswith("hexital.utils"):
                 return self.inline(st, fi, self.bind_args(fi.node, node, st), node, modinfo=fi.module)
             st.site("repo-call", node, func=fi)
             return Opaque(f"call {fi.qualname}")
